@@ -107,6 +107,7 @@ type caseSet struct {
 	preamble []string
 	ops      []opCase
 	drvMain  string
+	repo     bool // the repository's own packages (rebuilt from the repository on replay)
 }
 
 func (c *checker) newCaseSet(mode string, b *built) *caseSet {
@@ -152,7 +153,9 @@ func (cs *caseSet) input(idx ...int) string {
 		add(i)
 	}
 	job := cs.b.job
-	if job != nil {
+	if cs.repo {
+		rc.Mode, rc.Preamble = "C04repo", nil
+	} else if job != nil {
 		size := 0
 		for _, t := range job.Files {
 			size += len(t)
@@ -214,13 +217,13 @@ func (cs *caseSet) run() {
 		}
 		if o.Same > 0 {
 			p := &cs.ops[o.Same-1]
-			if p.ans != o.ans && !isAbnormal(o.ans) && !isAbnormal(p.ans) {
+			if !relEqual(p, o) && !isAbnormal(o.ans) && !isAbnormal(p.ans) {
 				fail(i, o.Kind, o.Why+"; the related operation answered "+summarize(p.ans, 1500), o.Same-1)
 			}
 		}
 		if o.IfOk > 0 {
 			p := &cs.ops[o.IfOk-1]
-			if strings.HasPrefix(p.ans, "ok") && p.ans != o.ans && !isAbnormal(o.ans) {
+			if strings.HasPrefix(p.ans, "ok") && !relEqual(p, o) && !isAbnormal(o.ans) {
 				fail(i, o.Kind, o.Why+"; the related operation answered "+summarize(p.ans, 1500), o.IfOk-1)
 			}
 		}
@@ -274,4 +277,28 @@ func firstWord(s string) string {
 		return s[:i]
 	}
 	return s
+}
+
+// relEqual compares the answers of two related ops; a streaming decode answer
+// carries the consumed byte count, which is dropped when the other op has none.
+func relEqual(a, b *opCase) bool {
+	ca, cb := hasCount(a), hasCount(b)
+	if ca == cb {
+		return a.ans == b.ans
+	}
+	return dropCount(a, ca) == dropCount(b, cb)
+}
+
+func hasCount(o *opCase) bool {
+	w := firstWord(o.Impl)
+	return w == "decode" || w == "decodec"
+}
+
+func dropCount(o *opCase, has bool) string {
+	if has && strings.HasPrefix(o.ans, "ok ") {
+		if parts := strings.SplitN(o.ans, " ", 3); len(parts) == 3 {
+			return "ok " + parts[2]
+		}
+	}
+	return o.ans
 }
